@@ -74,6 +74,7 @@ import (
 	"encoding/json"
 	"fmt"
 	"os"
+	"path/filepath"
 	"sort"
 	"strings"
 	"sync"
@@ -160,7 +161,11 @@ type segCase struct {
 	SegSidx2       bool `json:"segSidx2,omitempty"`
 	AddIfNotExists bool `json:"addIfNotExists"`
 	NonZeroEPT     bool `json:"nonZeroEPT"`
-	NoAvoid        bool `json:"noAvoid,omitempty"` // ignore avoidKnown (reproducers of known findings) ...
+	// Tool: step (3) goes through the BUILT examples/add-sidx binary (its options: -nzEPT = NonZeroEPT,
+	// -startSegOnMoof = Flags "moof", -removeEnc = RemoveEnc) instead of UpdateSidx + Encode in-process
+	Tool      bool `json:"tool,omitempty"`
+	RemoveEnc bool `json:"removeEnc,omitempty"`
+	NoAvoid   bool `json:"noAvoid,omitempty"` // ignore avoidKnown (reproducers of known findings) ...
 	// ... or, when names are given, only these switches (a reproducer shows its own failure even if the same
 	// input also runs into another known finding earlier in the oracle)
 	NoAvoidOnly []string `json:"noAvoidOnly,omitempty"`
@@ -1004,14 +1009,22 @@ func evalSegWith(c *segCase, st *stats, keepPrft bool) *harness.Fail {
 
 	// ---- (3) UpdateSidx + Encode
 	existed := truth.TopSidx != nil
-	if err := f.UpdateSidx(c.AddIfNotExists, c.NonZeroEPT); err != nil {
-		return harness.Failf("C12|File.UpdateSidx|error on decoded file", "%v; %s", err, describe())
+	var o []byte
+	if c.Tool {
+		var fail *harness.Fail
+		if o, fail = runAddSidx(c, file); fail != nil {
+			return fail
+		}
+	} else {
+		if err := f.UpdateSidx(c.AddIfNotExists, c.NonZeroEPT); err != nil {
+			return harness.Failf("C12|File.UpdateSidx|error on decoded file", "%v; %s", err, describe())
+		}
+		out.Reset()
+		if err := f.Encode(&out); err != nil {
+			return harness.Failf("C12|File.Encode|error after UpdateSidx", "%v; %s", err, describe())
+		}
+		o = out.Bytes()
 	}
-	out.Reset()
-	if err := f.Encode(&out); err != nil {
-		return harness.Failf("C12|File.Encode|error after UpdateSidx", "%v; %s", err, describe())
-	}
-	o := out.Bytes()
 	if !existed && !c.AddIfNotExists {
 		// nothing to update, nothing to add: same output as before
 		_, fail := compareOut("UpdateSidx(false,_)+Encode", o, exp)
@@ -1029,7 +1042,11 @@ func evalSegWith(c *segCase, st *stats, keepPrft bool) *harness.Fail {
 			sidxAt = len(exp3)
 			exp3 = append(exp3, ebox{typ: "sidx", seg: -1, frag: -1})
 		}
-		exp3 = append(exp3, exp[i])
+		e := exp[i]
+		if c.Tool && c.RemoveEnc && e.typ == "moof" {
+			e.data = nil // encryption boxes are taken out of the traf boxes: judged through the samples below
+		}
+		exp3 = append(exp3, e)
 	}
 	pos, fail := compareOut("UpdateSidx+Encode", o, exp3)
 	if fail != nil {
@@ -1179,6 +1196,11 @@ func evalSegWith(c *segCase, st *stats, keepPrft bool) *harness.Fail {
 		for k := range p.Sidxs {
 			s := &p.Sidxs[k]
 			if s.Box.Offset < sidxEnd {
+				continue
+			}
+			if c.Tool && c.RemoveEnc {
+				// -removeEnc shrinks the moof boxes; the tool (like UpdateSidx) maintains the top-level index only,
+				// which is what the property speaks about: no claim on the segment-level ones here
 				continue
 			}
 			end := s.Anchor
@@ -1410,6 +1432,10 @@ func genCase(t *rapid.T) (segCase, string) {
 
 	styp := mode == modeStyp || mode == modeStypSegSidx || mode == modeStypTopSidx
 	lay.TopSidx = mode == modeTopSidx || mode == modeStypTopSidx
+	if lay.TopSidx && rapid.IntRange(0, 3).Draw(t, "topSidxGap") == 0 {
+		// a free box between the index and the indexed material, announced in first_offset
+		lay.TopSidxGap = rapid.SampledFrom([]int{8, 9, 16, 24, 100}).Draw(t, "topSidxGapSize")
+	}
 	lay.SeqStart = rapid.SampledFrom([]uint32{0, 1, 1, 100, 0xfffffffe}).Draw(t, "seqStart")
 	f := 0
 	for _, nf := range nFrags {
@@ -1652,6 +1678,7 @@ func classify(c *segCase, mode string) (bool, []string) {
 	add(c.ism(), "flag-DecISMFlag", "")
 	add(c.moof(), "flag-DecStartOnMoof", "")
 	add(c.Layout.TopSidx, "sidx-existing", "sidx-absent")
+	add(c.Layout.TopSidxGap > 0, "sidx-existing-with-first-offset", "")
 	add(c.AddIfNotExists, "addIfNotExists", "addIfNotExists-false")
 	add(c.NonZeroEPT, "nonZeroEPT", "zeroEPT")
 	add(c.Layout.TopSidx || c.AddIfNotExists, "sidx-in-output", "sidx-not-in-output")
@@ -1692,6 +1719,117 @@ func classify(c *segCase, mode string) (bool, []string) {
 	add(!c.Layout.Mfra && c.ism(), "ism-flag-without-mfra", "")
 	classes = append(classes, fragbuild.Classes(c.Tracks, c.Layout)...)
 	return nontrivial, classes
+}
+
+// runAddSidx runs the built examples/add-sidx tool on the input and returns its output file.
+func runAddSidx(c *segCase, file []byte) ([]byte, *harness.Fail) {
+	if f := missingBin("add-sidx"); f != nil {
+		return nil, f
+	}
+	if !c.AddIfNotExists || c.Decoder != "file" || c.ism() {
+		return nil, harness.Failf("harness|c12|bad-case", "tool case needs addIfNotExists, decoder file and no ISM flag")
+	}
+	dir, err := caseDir()
+	if err != nil {
+		return nil, harness.Failf("harness|c12|scratch directory", "%v", err)
+	}
+	defer os.RemoveAll(dir)
+	if err := os.WriteFile(filepath.Join(dir, "in.mp4"), file, 0o644); err != nil {
+		return nil, harness.Failf("harness|c12|scratch directory", "%v", err)
+	}
+	var args []string
+	if c.NonZeroEPT {
+		args = append(args, "-nzEPT")
+	}
+	if c.moof() {
+		args = append(args, "-startSegOnMoof")
+	}
+	if c.RemoveEnc {
+		args = append(args, "-removeEnc")
+	}
+	r := runTool(dir, binPath("add-sidx"), append(args, "in.mp4", "out.mp4")...)
+	if crashed, class := r.crashed(); crashed {
+		return nil, harness.Failf("C12|add-sidx|panic ("+class+")", "%s", tail(r.Stderr, 1500))
+	}
+	if r.Exit != 0 {
+		return nil, harness.Failf("C12|add-sidx|error on valid input", "exit %d: %s", r.Exit, tail(r.Stderr+r.Stdout, 600))
+	}
+	o, err := os.ReadFile(filepath.Join(dir, "out.mp4"))
+	if err != nil {
+		return nil, harness.Failf("C12|add-sidx|no output file", "%v", err)
+	}
+	return o, nil
+}
+
+// leftoverEncBoxes are auxiliary-information boxes left in the traf of a clear track (as in
+// mp4/testdata/clear_with_enc_boxes.mp4): add-sidx -removeEnc takes them out.
+func leftoverEncBoxes() []fragbuild.ExtraBox {
+	return []fragbuild.ExtraBox{
+		{Type: "saiz", Payload: cat(be32(0), []byte{8}, be32(0))},
+		{Type: "saio", Payload: cat(be32(0), be32(1), be32(0))},
+		{Type: "senc", Payload: cat(be32(0), be32(0))},
+	}
+}
+
+const toolBatch = 12
+
+// TestAddSidxTool: the same generated layouts, step (3) through the add-sidx binary.
+func TestAddSidxTool(t *testing.T) {
+	needBin(t, "add-sidx")
+	defer cleanupTmp()
+	harness.RunRapid(t, "addsidx", func(rt *rapid.T) {
+		cases := make([]segCase, toolBatch)
+		modes := make([]string, toolBatch)
+		for i := range cases {
+			c, mode := genCase(rt)
+			c.Tool, c.AddIfNotExists, c.Decoder = true, true, "file"
+			c.setFlags(false, c.moof())
+			c.Layout.Mfra = false // ISM-style files are outside the tool's options
+			if rapid.Bool().Draw(rt, "encLeftovers") {
+				for si := range c.Layout.Segments {
+					for fi := range c.Layout.Segments[si].Frags {
+						fr := &c.Layout.Segments[si].Frags[fi]
+						fr.InTrafBoxes = append(fr.InTrafBoxes, leftoverEncBoxes()...)
+					}
+				}
+				c.RemoveEnc = rapid.Bool().Draw(rt, "removeEnc")
+			}
+			for _, name := range steerClear(&c) {
+				harness.Rec.Exclude(name)
+			}
+			cases[i], modes[i] = c, mode
+		}
+		fails := make([]*harness.Fail, len(cases))
+		sts := make([]stats, len(cases))
+		parallel(len(cases), func(i int) {
+			fails[i] = harness.Guarded(func() *harness.Fail { return evalSeg(&cases[i], &sts[i]) })
+		})
+		for i := range cases {
+			raw, _ := json.Marshal(cases[i])
+			nt, classes := classify(&cases[i], modes[i])
+			classes = append(classes, "tool-add-sidx")
+			if cases[i].RemoveEnc {
+				classes = append(classes, "tool-removeEnc")
+			}
+			harness.Rec.Case(nt, raw, classes...)
+			if harness.Rec.WantSample() && nt {
+				harness.Rec.Sample(map[string]interface{}{"kind": "segmentation", "case": cases[i]})
+			}
+			names := make([]string, 0, len(sts[i].skipped))
+			for name := range sts[i].skipped {
+				names = append(names, name)
+			}
+			sort.Strings(names)
+			for _, name := range names {
+				harness.Rec.Exclude(name)
+			}
+		}
+		for i := range cases {
+			if fails[i] != nil {
+				harness.Report(rt, "segmentation", cases[i], fails[i])
+			}
+		}
+	})
 }
 
 func TestSegmentation(t *testing.T) {
